@@ -648,6 +648,7 @@ func (h *httpServerHandler) handleGet(ctx context.Context, w http.ResponseWriter
 		delete(h.getSSEConnections, session.GetID())
 	}
 	h.getSSEConnectionsLock.Unlock()
+	verifYield("get:exited", r)
 	h.logger.Infof("GET SSE connection closed, session ID: %s", session.GetID())
 }
 
